@@ -226,6 +226,8 @@ class SqlalchemyRender:
             lim_up = self.to_expression(t.args[2])
 
             col = sa.between(col0, lim_down, lim_up)
+            if t.alias:
+                col = col.label(self.get_alias(t.alias))
         elif isinstance(t, ast.Interval):
             col = INTERVAL(t.args[0])
             if t.alias:
@@ -285,11 +287,17 @@ class SqlalchemyRender:
         elif isinstance(t, ast.Exists):
             sub_stmt = self.prepare_select(t.query)
             col = sub_stmt.exists()
+            if t.alias:
+                col = col.label(self.get_alias(t.alias))
         elif isinstance(t, ast.NotExists):
             sub_stmt = self.prepare_select(t.query)
             col = ~sub_stmt.exists()
+            if t.alias:
+                col = col.label(self.get_alias(t.alias))
         elif isinstance(t, ast.Case):
             col = self.prepare_case(t)
+            if t.alias:
+                col = col.label(self.get_alias(t.alias))
         else:
             # some other complex object?
             raise NotImplementedError(f'Column {t}')
